@@ -47,6 +47,8 @@ import OxiddModel.Mtbdd.DriverThreshold
 import OxiddModel.Tdd.DriverThreshold
 import OxiddModel.Dddmp.DriverHeader
 import OxiddModel.ArcSlab.Driver
+import OxiddModel.Dddmp.DriverImportThreshold
+import OxiddModel.Dddmp.DriverImportThresholdC
 
 open OxiddModel
 
@@ -112,7 +114,9 @@ def protos : List (String × Proto) := [
   ("c14tm", OxiddModel.Mtbdd.ThresholdDriver.proto),
   ("c14tt", OxiddModel.Tdd.ThresholdDriver.proto),
   ("dddmp-header", OxiddModel.Dddmp.Hdr.protoHeader),
-  ("arcslab", OxiddModel.ArcSlab.proto)
+  ("arcslab", OxiddModel.ArcSlab.proto),
+  ("c14imp", OxiddModel.Dddmp.ImportThresholdDriver.proto),
+  ("c14impc", OxiddModel.Dddmp.ImportThresholdDriverC.proto)
 ]
 
 def main (args : List String) : IO UInt32 := do
